@@ -770,6 +770,13 @@ func (s *attackSim) perform(a action) {
 			s.trigger("targeter-error")
 			w.Log.Addf("%d rel-target error", w.Step)
 			w.Release(ar, -1, nil)
+		} else if !s.drain && s.tape.Prob(1, 12) {
+			// a target that the targeter hands out but no request can be built from (a method with a blank in it): the
+			// hit ends with an error before any exchange, and counts as a hit like any other
+			s.hits[h].finished = true
+			s.stats["fault.unbuildable-target"]++
+			w.Log.Addf("%d rel-target %d unbuildable", w.Step, h)
+			w.Release(ar, int64(h)|unbuildableTarget, nil)
 		} else {
 			w.Log.Addf("%d rel-target %d", w.Step, h)
 			w.Release(ar, int64(h), nil)
